@@ -165,6 +165,20 @@ def target_model_is_refused(w2, perms):
     return _refused_cache[k]
 
 
+def refused_on_fresh_live(w, perms, letter):
+    """Is the same letter also refused by a freshly built live universe with the same content? (then the refusal is a
+    domain refusal of the library, not an artefact of the history that led to the state)"""
+    try:
+        m2 = W.build(w, perms=perms)
+    except Exception:  # noqa
+        return True
+    try:
+        W.apply_live(m2, letter)
+        return False
+    except Exception:  # noqa
+        return True
+
+
 def after_noop(task):
     """Was the previous letter of the history one that changes nothing? (structural detail for signatures)"""
     h = task.get("history", [])
@@ -273,7 +287,7 @@ def run_task(task):
                 applied = "unchanged"
                 # the operation was not performed although a Python list would have performed it: only acceptable when
                 # the target model itself is refused by the library (capacity, storage shared by two servers, ...)
-                if not target_model_is_refused(w2, task.get("perms")):
+                if not target_model_is_refused(w2, task.get("perms")) and not refused_on_fresh_live(w, task.get("perms"), letter):
                     res["violations"].append({"sig": {"clause": "operation-refused-although-target-model-is-valid",
                                                       "letter": lc, "args": args_kind, "exc": live_raises.split(":")[0],
                                                       "after_noop": str(after_noop(task))},
